@@ -73,6 +73,14 @@ def configs(tier):
             out.append({"N": 2, "opts": {"adaptive": False, "n_steps": n}, "sampler": "emcee_smc"})
             out.append({"N": 4, "opts": {"adaptive": False, "n_steps": n, "n_final_samples": 6}, "sampler": "smc"})
             out.append({"N": 4, "opts": {"adaptive": False, "n_steps": n, "min_step": 0.3}, "sampler": "smc"})
+    # non-initial state: the same sampler object already completed another run
+    for prior in ({"adaptive": False, "n_steps": 2}, {"adaptive": True, "max_n_steps": 2, "target_efficiency": (0.3, 0.8)}):
+        for sampler in ("smc", "emcee_smc"):
+            if sampler == "emcee_smc" and "max_n_steps" in prior:
+                continue
+            out.append({"N": 4, "opts": {"adaptive": True}, "sampler": sampler, "prior_call": prior})
+            out.append({"N": 4, "opts": {"adaptive": False, "n_steps": 3}, "sampler": sampler, "prior_call": prior})
+    out.append({"N": 4, "opts": {"adaptive": True, "min_step": 0.3}, "sampler": "smc", "prior_call": {"adaptive": True, "max_n_steps": 3}})
     # larger fixed schedules with no environment deviation at all (cheap, catches accumulation errors)
     big = range(14, 65) if tier == "quick" else range(14, 301)
     for n in big:
